@@ -328,5 +328,21 @@ func commitProtocol(c *Ctx) *commitProto {
 		cp.visited[e.fn] = true
 		e.exceeded = px.Exceeded
 	}
+	// what was explored, for the evidence
+	var ents []map[string]interface{}
+	for _, e := range cp.entries {
+		var ws []string
+		for w := range e.wait {
+			ws = append(ws, w)
+		}
+		sort.Strings(ws)
+		ents = append(ents, map[string]interface{}{"terminator": FuncName(e.fn), "reaches_durability": e.reachedDur, "commitwait_flag_values": ws, "path_budget_exceeded": e.exceeded})
+	}
+	var walked []string
+	for f := range cp.visited {
+		walked = append(walked, FuncName(f))
+	}
+	sort.Strings(walked)
+	c.R.Extra["commit_protocol"] = map[string]interface{}{"terminators": ents, "durability_call_sites": len(cp.durCalls), "functions_walked": walked}
 	return cp
 }
